@@ -244,15 +244,29 @@ class SquidsHooks(GslHooks):
             vals = [it.eval(a) for a in args]
             o = Obj('gsl_odeiv2_driver', None, 'driver')
             o.field('sys').value = vals[0]
+            # what the driver was configured with: it keeps using these until told otherwise
             r = Region('driver', 1, None, 'heap', {'driver': True})
+            r.meta['cfg'] = {'sys': vals[0], 'step': vals[1], 'h': vals[2], 'abs': vals[3], 'rel': vals[4], 'hmin': None, 'hmax': None, 'nmax': None}
             r.cell(0).value = o
             self.driver.append(('alloc', vals))
             return Ptr(r, 0)
         if name in ('gsl_odeiv2_driver_set_hmin', 'gsl_odeiv2_driver_set_hmax', 'gsl_odeiv2_driver_set_nmax'):
-            self.driver.append((name, [it.eval(a) for a in args]))
+            vals = [it.eval(a) for a in args]
+            self.driver.append((name, vals))
+            if isinstance(vals[0], Ptr) and vals[0].region is not None and 'cfg' in vals[0].region.meta:
+                vals[0].region.meta['cfg'][name[len('gsl_odeiv2_driver_set_'):]] = vals[1]
+            return 0
+        if name in ('gsl_odeiv2_driver_reset_hstart', 'gsl_odeiv2_driver_reset'):
+            vals = [it.eval(a) for a in args]
+            self.driver.append((name, vals))
+            if name.endswith('hstart') and isinstance(vals[0], Ptr) and vals[0].region is not None and 'cfg' in vals[0].region.meta:
+                vals[0].region.meta['cfg']['h'] = vals[1]
             return 0
         if name == 'gsl_odeiv2_driver_free':
-            self.driver.append(('free', [it.eval(args[0])]))
+            p = it.eval(args[0])
+            self.driver.append(('free', [p]))
+            if isinstance(p, Ptr) and p.region is not None and not p.is_null():
+                p.region.meta['freed'] = True
             return None
         if name in ('gsl_odeiv2_driver_apply', 'gsl_odeiv2_driver_apply_fixed_step'):
             vals = [it.eval(a) for a in args]
@@ -260,14 +274,18 @@ class SquidsHooks(GslHooks):
             y = vals[-1]
             tcell = it.deref(tptr, node)
             t0 = it.to_poly(it.read(tcell, node))
+            if isinstance(d, Ptr) and d.region is not None and d.region.meta.get('freed'):
+                raise AnalysisBroken('a freed GSL driver is applied at %s' % it.loc(node))
+            cfg = dict(d.region.meta.get('cfg', {})) if isinstance(d, Ptr) and d.region is not None else {}
+            cfg['driver'] = d
             if name.endswith('apply'):
                 t1 = it.to_poly(vals[2])
-                self.driver.append(('apply', t0, t1, y))
+                self.driver.append(('apply', t0, t1, y, cfg))
             else:
                 nn = vals[3]
                 hh = ite_apply(vals[2], it.to_poly)
                 t1 = ite_apply(hh, lambda h: t0 + h * it.to_poly(nn))
-                self.driver.append(('apply_fixed_step', t0, hh, nn, y))
+                self.driver.append(('apply_fixed_step', t0, hh, nn, y, cfg))
             # one abstract evaluation of the system function on driver-owned buffers (the stepper's stages)
             sysobj = it.deref(d, node).value.fields['sys'].value
             sysv = it.deref(sysobj, node).value
@@ -319,6 +337,12 @@ class SquidsHooks(GslHooks):
             if self.order.strict:
                 raise NotAnOrderComparison(it.loc(node), op, pa, pb)
         return NotImplemented
+
+    def on_unique_reset(self, it, node, old, new):
+        # a smart pointer gives up what it held: for a GSL driver that is its release
+        if isinstance(old, Ptr) and old.region is not None and not old.is_null() and old.region.meta.get('driver') and old != new:
+            old.region.meta['freed'] = True
+            self.driver.append(('free', [old]))
 
     def static_local(self, it, d):
         # function-local statics (thread_local or not) keep their value between calls, and between solver objects, when
